@@ -49,6 +49,8 @@ fn main() {
             }
             y.push_str("\n  ;\n");
         }
+        // always regenerate: the builder's up-to-date check does not notice a changed generator
+        let _ = std::fs::remove_file(out.join(format!("g{k}.y.rs")));
         let yp = out.join(format!("g{k}.y"));
         std::fs::write(&yp, &y).unwrap();
         let mod_name: &'static str = Box::leak(format!("g{k}_y").into_boxed_str());
